@@ -238,6 +238,8 @@ struct Ep {
     processed: Vec<(u64, u64, u64)>,
     emitted: HashSet<(u64, u64, u64)>,
     handshake_rx_us: i128, // first Handshake packet received (server: address validated)
+    closed_code: i128,     // transport error code of the close, -1 otherwise
+    closed_local: u64,     // the close was initiated by this endpoint
     tp_rx: u64,            // the peer's transport parameters were received (idle timeout negotiated)
     conn_start_us: u64,
 }
@@ -257,6 +259,10 @@ struct Shared {
     wire: Vec<[i128; 7]>,
     wire_capped: bool,
     wire_on: bool,
+    // e2e_violate: what the client's tx interceptor breaks, and when it did
+    viol: Option<Viol>,
+    // datagrams that carry a MAX_DATA frame, just handed to the socket: (socket id, length)
+    md_marks: Vec<(u64, usize)>,
     // generic event log of e2e_pn (mode 1), e2e_cid (mode 2), e2e_cc (mode 3): rows of 8 ints
     xmode: u8,
     xlog: Vec<[i128; 8]>,
@@ -267,6 +273,19 @@ struct Shared {
     ids: [u64; 2], // socket ids (client, server) for the delivery bookkeeping
     // e2e_cc: ack-eliciting flag of the packets built by the tx interceptor, keyed (ep, space, pn)
     built: HashMap<(usize, u64, u64), bool>,
+}
+
+#[derive(Clone, Default)]
+struct Viol {
+    kind: u64,
+    after_n: u64,     // rewrite the n-th eligible packet
+    seen: u64,
+    stream_window: u64,
+    conn_window: u64,
+    max_streams: u64,
+    done_us: i128,    // -1 until the rewrite happened
+    sent0: u64,       // highest end offset of genuine data sent on stream 0 so far
+    opened2: bool,    // the client's first unidirectional stream (id 2) carried data already
 }
 
 type Sh = Arc<Mutex<Shared>>;
@@ -363,6 +382,10 @@ impl event::Subscriber for Sub {
             e.closed = 1;
             e.closed_class = err_class(&event.error);
             e.closed_us = now_us();
+            if let s2n_quic::connection::Error::Transport { code, initiator, .. } = &event.error {
+                e.closed_code = code.as_u64() as i128;
+                e.closed_local = initiator.is_local() as u64;
+            }
         }
         let t = now_us() as i128;
         match s.xmode {
@@ -563,6 +586,7 @@ struct Icpt {
     // e2e_cid: rows of RETIRE_CONNECTION_ID frames waiting for the destination id of their datagram
     pending_retire: Vec<usize>,
     own_id_logged: bool,
+    saw_max_data: bool,
 }
 
 fn datagram_cids(d: &[u8], cid_len: usize) -> (Option<u64>, Option<u64>) {
@@ -641,8 +665,8 @@ impl Icpt {
             if frame.ack_elicitation().is_ack_eliciting() {
                 eliciting = true;
             }
-            if std::env::var_os("E2E_DEBUG").is_some() && !matches!(frame, FrameMut::Padding(_)) {
-                eprintln!("{} ep{} {} {:?}", now_us(), ep, if tx { "tx" } else { "rx" }, frame);
+            if tx && matches!(frame, FrameMut::MaxData(_)) {
+                self.saw_max_data = true;
             }
             match s.xmode {
                 1 => {
@@ -754,6 +778,104 @@ impl Icpt {
     }
 }
 
+// kinds of e2e_violate and the error RFC 9000 prescribes
+// 1 STREAM beyond MAX_STREAM_DATA (FLOW_CONTROL_ERROR 3)   2 STREAM beyond MAX_DATA (3)
+// 3 STREAM on a stream beyond MAX_STREAMS (STREAM_LIMIT_ERROR 4)
+// 4 STREAM with FIN below data already sent: changed final size (FINAL_SIZE_ERROR 6)
+// 5 MAX_STREAM_DATA for a server-initiated stream that was never opened (STREAM_STATE_ERROR 5)
+// 6 RESET_STREAM with a final size below data already sent (6)
+// 7 STOP_SENDING for the client's own unidirectional stream, receive-only at the victim (5)
+// 8 STREAM frame in a Handshake packet (PROTOCOL_VIOLATION 10)
+fn violate(sh: &Sh, space: u64, payload: &mut [u8]) {
+    use s2n_codec::{Encoder, EncoderBuffer};
+    use s2n_quic_core::{frame, varint::VarInt};
+    let mut s = sh.lock().unwrap();
+    let seed = s.seed;
+    let Some(v) = s.viol.as_mut() else { return };
+    if v.done_us >= 0 {
+        return;
+    }
+    // bookkeeping from the genuine frames
+    {
+        let mut copy = payload.to_vec();
+        let mut buf = DecoderBufferMut::new(&mut copy);
+        while !buf.is_empty() {
+            let Ok((f, rest)) = buf.decode::<FrameMut>() else { break };
+            buf = rest;
+            if let FrameMut::Stream(st) = &f {
+                let end = st.offset.as_u64() + st.data.len() as u64;
+                if st.stream_id.as_u64() == 0 {
+                    v.sent0 = v.sent0.max(end);
+                }
+                if st.stream_id.as_u64() == 2 && end > 0 {
+                    v.opened2 = true;
+                }
+            }
+        }
+    }
+    let eligible = match v.kind {
+        8 => space == 1 && payload.len() >= 16,
+        4 | 6 => space == 2 && payload.len() >= 40 && v.sent0 >= 3000,
+        7 => space == 2 && payload.len() >= 40 && v.opened2,
+        _ => space == 2 && payload.len() >= 40,
+    };
+    if !eligible {
+        return;
+    }
+    v.seen += 1;
+    if v.seen < v.after_n && v.kind != 8 {
+        return;
+    }
+    // offending stream data: never equal to what the application wrote
+    let bad = |sid: u64, off: u64, n: usize| -> Vec<u8> { (0..n).map(|i| !data_byte(seed, sid, 0, off + i as u64)).collect() };
+    let vi = |x: u64| VarInt::new(x).unwrap();
+    let total = payload.len();
+    let mut enc = EncoderBuffer::new(payload);
+    match v.kind {
+        1 => {
+            // beyond any limit the victim can have granted: it cannot have consumed more than was sent
+            let off = v.sent0 + v.stream_window + 5000;
+            let d = bad(0, off, 8);
+            enc.encode(&frame::Stream { stream_id: vi(0), offset: vi(off), is_last_frame: false, is_fin: false, data: &d[..] });
+        }
+        2 => {
+            // raises the connection-wide sum by more than the whole connection window
+            let off = v.sent0 + v.conn_window + 1000;
+            let d = bad(0, off, 8);
+            enc.encode(&frame::Stream { stream_id: vi(0), offset: vi(off), is_last_frame: false, is_fin: false, data: &d[..] });
+        }
+        3 => {
+            let sid = 4 * (v.max_streams + 7);
+            let d = bad(sid, 0, 8);
+            enc.encode(&frame::Stream { stream_id: vi(sid), offset: vi(0), is_last_frame: false, is_fin: false, data: &d[..] });
+        }
+        4 => {
+            let d = bad(0, 10, 4);
+            enc.encode(&frame::Stream { stream_id: vi(0), offset: vi(10), is_last_frame: false, is_fin: true, data: &d[..] });
+        }
+        5 => {
+            enc.encode(&frame::MaxStreamData { stream_id: vi(1), maximum_stream_data: vi(1 << 20) });
+        }
+        6 => {
+            enc.encode(&frame::ResetStream { stream_id: vi(0), application_error_code: vi(9), final_size: vi(5) });
+        }
+        7 => {
+            enc.encode(&frame::StopSending { stream_id: vi(2), application_error_code: vi(9) });
+        }
+        _ => {
+            let d = bad(0, 0, 4);
+            enc.encode(&frame::Stream { stream_id: vi(0), offset: vi(0), is_last_frame: false, is_fin: false, data: &d[..] });
+        }
+    }
+    // the rest of the packet becomes PADDING
+    let used = enc.len();
+    drop(enc);
+    for b in payload[used..total].iter_mut() {
+        *b = 0;
+    }
+    v.done_us = now_us() as i128;
+}
+
 impl Interceptor for Icpt {
     fn intercept_rx_payload<'a>(&mut self, subject: &Subject, packet: &IPacket, payload: DecoderBufferMut<'a>) -> DecoderBufferMut<'a> {
         if !self.is_primary(subject) {
@@ -787,6 +909,13 @@ impl Interceptor for Icpt {
             return;
         }
         let mut s = self.sh.lock().unwrap();
+        if self.saw_max_data {
+            self.saw_max_data = false;
+            let id = s.ids[self.ep];
+            if s.md_marks.len() < 64 {
+                s.md_marks.push((id, payload.as_mut_slice().len()));
+            }
+        }
         if s.xmode != 2 {
             return;
         }
@@ -807,6 +936,9 @@ impl Interceptor for Icpt {
     fn intercept_tx_payload(&mut self, subject: &Subject, packet: &IPacket, payload: &mut s2n_codec::encoder::scatter::Buffer) {
         if !self.is_primary(subject) {
             return;
+        }
+        if self.ep == 0 {
+            violate(&self.sh, space_id(packet.number.space()), payload.flatten().as_mut_slice());
         }
         let bytes = payload.flatten().as_mut_slice().to_vec();
         {
@@ -861,6 +993,8 @@ struct NetCfg {
     inject_kinds: u64, // bit mask over the kinds below
     // faults apply only to these two hosts' traffic when set (raw senders get a clean path)
     fault_hosts: Option<(u64, u64)>,
+    // while faults are active, datagrams carrying a MAX_DATA frame are dropped with this permille
+    md_drop_pm: u64,
 }
 
 const INJ_RANDOM: usize = 0;
@@ -1110,6 +1244,21 @@ impl Net {
             }
         }
         let faults = now < c.fault_until_us;
+        if c.md_drop_pm > 0 {
+            let marked = {
+                let mut s = self.sh.lock().unwrap();
+                match s.md_marks.iter().position(|m| m.0 == src && m.1 == pkt.payload.len()) {
+                    Some(i) => {
+                        s.md_marks.remove(i);
+                        true
+                    }
+                    None => false,
+                }
+            };
+            if marked && faults && self.rng.permille(c.md_drop_pm) {
+                return count;
+            }
+        }
         if faults && self.rng.permille(c.drop_pm) {
             return count;
         }
@@ -1456,8 +1605,12 @@ async fn reader(mut recv: s2n_quic::stream::ReceiveStream, c: AppCfg, sh: Sh, ep
                 break;
             }
         }
-        if sh.lock().unwrap().ep[ep].closed == 0 {
-            time::delay(Duration::from_millis(c.slow_wait_ms)).await;
+        // the extra wait is given up as soon as the connection is closed: an application that sits
+        // out a timer of its own must not count against the endpoint's deadline
+        let mut waited = 0;
+        while waited < c.slow_wait_ms && sh.lock().unwrap().ep[ep].closed == 0 {
+            time::delay(Duration::from_millis(10)).await;
+            waited += 10;
         }
     }
     loop {
@@ -1552,7 +1705,7 @@ fn start_server(handle: &Handle, c: &AppCfg, sh: &Sh, tls: (String, String)) -> 
                 .with_connection_id(cid_format(c, 41))?
                 .with_congestion_controller($cc)?
                 .with_limits(limits(c, 1))?
-                .with_packet_interceptor(Icpt { ep: 1, sh: sh.clone(), full: c.full_records, primary: None, pending_retire: vec![], own_id_logged: false })?
+                .with_packet_interceptor(Icpt { ep: 1, sh: sh.clone(), full: c.full_records, primary: None, pending_retire: vec![], own_id_logged: false, saw_max_data: false })?
                 .start()?
         };
     }
@@ -1627,7 +1780,7 @@ fn start_client(handle: &Handle, c: &AppCfg, sh: &Sh, addr: std::net::SocketAddr
                 .with_connection_id(cid_format(c, 42))?
                 .with_congestion_controller($cc)?
                 .with_limits(limits(c, 0))?
-                .with_packet_interceptor(Icpt { ep: 0, sh: sh.clone(), full: c.full_records, primary: None, pending_retire: vec![], own_id_logged: false })?
+                .with_packet_interceptor(Icpt { ep: 0, sh: sh.clone(), full: c.full_records, primary: None, pending_retire: vec![], own_id_logged: false, saw_max_data: false })?
                 .start()?
         };
     }
@@ -1762,6 +1915,8 @@ fn new_shared(seed: u64) -> Sh {
     let mut s = Shared { seed, ..Default::default() };
     s.ep[0].handshake_rx_us = -1;
     s.ep[1].handshake_rx_us = -1;
+    s.ep[0].closed_code = -1;
+    s.ep[1].closed_code = -1;
     Arc::new(Mutex::new(s))
 }
 
@@ -1784,7 +1939,7 @@ fn server_tls(extra_chain: u64) -> (String, String) {
 // case: [seed, drop_pm, dup_pm, corrupt_pm, jitter_ms, max_udp, n_bidi, bytes, stream_window,
 //        conn_window, max_streams, chunk, read_size, blackhole_after_ms, blackhole_len_ms (0 = forever),
 //        n_uni, delay_ms, idle_ms, fault_until_ms, close_at_end, finish_mode, write_modes_mask, read_modes_mask,
-//        max_send_buffer_size]
+//        max_send_buffer_size, max_data_drop_pm (datagrams carrying MAX_DATA, while faults are active)]
 //
 // output: [1, watchdog_hit, sim_end_us, last_progress_us, connect_ok, n_bidi, n_uni, idle_ms, perm_bh, handshake_ms,
 //          client: 12 ints, server: 12 ints (push_ep),
@@ -1831,6 +1986,7 @@ fn e2e_stream(input: &[V]) -> Vec<V> {
     let wmask = c.u64() & 15;
     let rmask = c.u64() & 31;
     let send_buf = c.u64().min(1 << 24);
+    let md_drop_pm = c.u64().min(1000);
 
     let sh = new_shared(seed);
     let app = AppCfg {
@@ -1865,6 +2021,7 @@ fn e2e_stream(input: &[V]) -> Vec<V> {
         fault_until_us: fault_until_ms * 1000,
         bh_start_us: bh_after_ms * 1000,
         bh_end_us: if bh_len_ms == 0 { u64::MAX } else { (bh_after_ms + bh_len_ms) * 1000 },
+        md_drop_pm,
         ..Default::default()
     };
     let (end_us, _) = run_sim(net, app, sh.clone(), |_, _| Ok(()), 0);
@@ -2022,9 +2179,7 @@ fn e2e_amp(input: &[V]) -> Vec<V> {
                 let kinds: Vec<u64> = (0..4).filter(|k| raw_mask & (1 << k) != 0).collect();
                 for k in 0..raw_per {
                     // distinct virtual instants for every raw datagram of the run
-                    let slot = k * n_raw + i;
                     time::delay(Duration::from_micros(if k == 0 { 1000 + 1700 * i } else { 1700 * n_raw })).await;
-                    let _ = slot;
                     if kinds.is_empty() {
                         break;
                     }
@@ -2359,6 +2514,78 @@ fn e2e_cc(input: &[V]) -> Vec<V> {
     out
 }
 
+// ------------------------------------------------------------------------------------------
+// e2e_violate (C04)
+// ------------------------------------------------------------------------------------------
+//
+// An otherwise honest client whose tx interceptor rewrites one packet so that it breaks one rule;
+// the victim is the server.  Lossless network.
+// case: [seed, kind (1..8), after_n, n_bidi, n_uni, bytes, stream_window, conn_window, max_streams, delay_ms]
+// output: [1, kind, injected (0/1), inject_time_us, expected_code, delay_ms,
+//          server closed, server close class, server transport code, server closed_us, server close local,
+//          n_flows, flows x10]
+
+fn e2e_violate(input: &[V]) -> Vec<V> {
+    let mut c = Cur::new(input);
+    let seed = c.u64();
+    let kind = c.u64().clamp(1, 8);
+    let after_n = c.u64().clamp(1, 50);
+    let n_bidi = c.u64().clamp(1, 4);
+    let n_uni = c.u64().clamp(1, 3);
+    let bytes = c.u64().clamp(20_000, 300_000);
+    let stream_window = c.u64().clamp(10_000, 1 << 20);
+    let conn_window = c.u64().clamp(20_000, 1 << 22);
+    let max_streams = c.u64().clamp(8, 100);
+    let delay_ms = c.u64().clamp(1, 200);
+    // kind 2 needs room in the stream window beyond the connection window
+    let (stream_window, conn_window) = if kind == 2 { (stream_window.max(conn_window + 50_000), conn_window) } else { (stream_window, conn_window) };
+
+    let sh = new_shared(seed);
+    sh.lock().unwrap().viol = Some(Viol { kind, after_n, stream_window, conn_window, max_streams, done_us: -1, ..Default::default() });
+    let app = AppCfg {
+        seed,
+        n_bidi,
+        n_uni,
+        bytes,
+        stream_window,
+        conn_window,
+        max_streams,
+        chunk: 4000,
+        read_size: 0,
+        idle_ms: 10_000,
+        watchdog_us: 120_000_000,
+        close_at_end: false,
+        ..Default::default()
+    };
+    let net = NetCfg { seed, delay_ms, max_udp: 65535, ..Default::default() };
+    let _ = run_sim(net, app, sh.clone(), |_, _| Ok(()), 0);
+    let s = sh.lock().unwrap();
+    let v = s.viol.clone().unwrap();
+    let expected: V = match kind {
+        1 | 2 => 3,
+        3 => 4,
+        4 | 6 => 6,
+        5 | 7 => 5,
+        _ => 10,
+    };
+    let e = &s.ep[1];
+    let mut out: Vec<V> = vec![
+        1,
+        kind as V,
+        (v.done_us >= 0) as V,
+        v.done_us,
+        expected,
+        delay_ms as V,
+        e.closed as V,
+        e.closed_class as V,
+        e.closed_code,
+        e.closed_us as V,
+        e.closed_local as V,
+    ];
+    push_flows(&mut out, &s);
+    out
+}
+
 fn main() {
     // e2e_stream_cXX: the same run, judged for one property only by the extracted monitor
     h_common::main_with(&[
@@ -2372,5 +2599,6 @@ fn main() {
         ("e2e_pn", e2e_pn),
         ("e2e_cid", e2e_cid),
         ("e2e_cc", e2e_cc),
+        ("e2e_violate", e2e_violate),
     ]);
 }
